@@ -192,6 +192,37 @@ fn sweep_case(ctx: &Ctx, rep: &mut Report, rng: &mut Rng, cfg: &DbCfg, slice: us
 			}
 		}
 		if i % 24 == 23 {
+			// the values written since the last drain sit at every stage of the pipeline; log and
+			// sync what is still queued, then take the directory as it is (process stopped here)
+			// and open the copy: whatever has to be REPLAYED from the log must read back bit-exact
+			trace.push("log + flush, open a copy of the directory (replay), verify".into());
+			let mut bound = 0;
+			while db.verif_status().queued_commits > 0 && bound < 1000 {
+				do_step(&db, Step::ProcessCommits).map_err(|e| Fail { sig: "failure=step_error;step=process_commits".into(), detail: format!("{}", e) })?;
+				bound += 1;
+			}
+			do_step(&db, Step::FlushLogs).map_err(|e| Fail { sig: "failure=step_error;step=flush_logs".into(), detail: format!("{}", e) })?;
+			let pending = { let st = db.verif_status(); st.read_queue_len + st.reading.map_or(0, |_| 1) };
+			let path2 = dir.path.join("copy");
+			let _ = std::fs::remove_dir_all(&path2);
+			pv::scratch::copy_dir(&path, &path2).map_err(|e| Fail { sig: "failure=harness".into(), detail: format!("copy: {}", e) })?;
+			match catch(|| Db::open(&cfg.options(&path2))) {
+				Ok(Ok(d2)) => {
+					let d2 = dbutil::Handle::new(d2);
+					let n = keys.len();
+					for k in keys.iter().skip(n.saturating_sub(48)) {
+						check_key(&d2, k, model.get(k), rep, &cfg_key, "read-back after log replay (copy of the directory taken before enactment)")?;
+					}
+					d2.close();
+					rep.count("replay_checks", 1);
+					if pending > 0 {
+						rep.count("replay_checks_with_unapplied_logs", 1);
+					}
+				},
+				Ok(Err(e)) => return fail("failure=open_error", format!("opening a copy of the directory failed: {}", e)),
+				Err(p) => return fail(format!("failure=open_panic;site={}", panic_site(&p)), format!("opening a copy of the directory panicked: {}", p)),
+			}
+			let _ = std::fs::remove_dir_all(&path2);
 			trace.push("drain + verify all".into());
 			dbutil::drain(&db).map_err(|e| Fail { sig: "failure=step_error;step=drain".into(), detail: format!("{}", e) })?;
 			// everything written since the last drain, plus a sample of older values
